@@ -27,7 +27,7 @@ type fakeReader struct {
 }
 
 func (f *fakeReader) GetPillarWeights() (map[string]*big.Int, error) { return nil, nil }
-func (f *fakeReader) EpochTicker() common.Ticker                      { return f.ticker }
+func (f *fakeReader) EpochTicker() common.Ticker                     { return f.ticker }
 func (f *fakeReader) EpochStats(epoch uint64) (*api.EpochStats, error) {
 	return f.stats[epoch], nil
 }
